@@ -212,6 +212,8 @@ def merge_stats(into, other):
     for k, v in other.items():
         if isinstance(v, dict):
             merge_stats(into.setdefault(k, {}), v)
+        elif isinstance(v, (int, float)) and str(k).startswith('max_'):
+            into[k] = max(into.get(k, 0), v)
         elif isinstance(v, (int, float)):
             into[k] = into.get(k, 0) + v
         else:
